@@ -216,8 +216,16 @@ class BreakpointHandler:
         @return the message box body for the debug-action query, for the current ip.
         """
         address = self.get_address_str(ip)
-        flip = self.get_address_str(mem.get_word(ip))
-        jump = self.get_address_str(mem.get_word(ip + mem.memory_width))
+        # the op's words may be unreadable (outside every segment) - the pause must not end the run for that:
+        #  the run itself will report the memory error when (and if) it executes the op.
+        try:
+            flip = self.get_address_str(mem.get_word(ip))
+        except FlipJumpException:
+            flip = '<unreadable>'
+        try:
+            jump = self.get_address_str(mem.get_word(ip + mem.memory_width))
+        except FlipJumpException:
+            jump = '<unreadable>'
         return f'Address {address}.\n\n{op_counter} ops executed.\n\nflip {flip}.\n\njump {jump}.'
 
     def handle_read_memory(self, target: str, mem: fjm_reader.Reader) -> None:
